@@ -127,4 +127,31 @@ set_option maxRecDepth 1000000 in
     the source on every run) — and hence, by `shipped_messages_ok`, the one the code computes — is the published value. -/
 theorem published_crc_extra : Spec.publishedCrcExtra.all publishedOk = true := by decide +kernel
 
+/-- **C17 (struct names).** A struct that `Initialize` accepts is named `Message` followed by an uppercase letter: the message name
+    the run-time derives (it drops the first character of the converted rest) is then the converted rest itself … -/
+theorem accepted_struct_name (st : Msg.GoStruct) (rw : Msg.RW) (h : Msg.init st = .ok rw) :
+    ∃ c r, st.name.toList = "Message".toList ++ c :: r ∧ Msg.isUpper c = true := by
+  have hp := (SortLink.init_ok st rw h).1
+  unfold Msg.hasMsgPrefix at hp
+  rw [Bool.and_eq_true] at hp
+  obtain ⟨h1, h2⟩ := hp
+  obtain ⟨t, ht⟩ := List.isPrefixOf_iff_prefix.mp h1
+  rw [← ht] at h2 ⊢
+  have hd : ("Message".toList ++ t).drop 7 = t := by simp
+  rw [hd] at h2
+  cases t with
+  | nil => simp [Msg.suffixUpper] at h2
+  | cons c r => exact ⟨c, r, rfl, by simpa [Msg.suffixUpper] using h2⟩
+
+/-- … and any other name is refused at initialisation: `Message` alone (the code before d4b63a4 panicked), `Messagex`, `Message9`,
+    `Message_` (accepted before, all with an empty message name) -/
+theorem malformed_struct_name_rejected (st : Msg.GoStruct) (h : Msg.hasMsgPrefix st.name = false) :
+    Msg.init st = .error .namePrefix := by
+  unfold Msg.init
+  simp [h]
+  rfl
+
+example : Msg.hasMsgPrefix "Message" = false ∧ Msg.hasMsgPrefix "Messagex" = false ∧ Msg.hasMsgPrefix "Message9" = false ∧
+    Msg.hasMsgPrefix "Message_" = false ∧ Msg.hasMsgPrefix "MessageX" = true ∧ Msg.hasMsgPrefix "Heartbeat" = false := by decide
+
 end Mav.C17
